@@ -51,7 +51,7 @@ var ErrTimeout = errors.New("peers: timeout")
 func StartOS(opts ...sftp.ServerOption) (*Srv, error) {
 	c2s_r, c2s_w := io.Pipe()
 	s2c_r, s2c_w := io.Pipe()
-	srv, err := sftp.NewServer(rwc{Reader: c2s_r, WriteCloser: s2c_w, closeRead: func() { c2s_r.Close() }}, opts...)
+	srv, err := NewOSServer(rwc{Reader: c2s_r, WriteCloser: s2c_w, closeRead: func() { c2s_r.Close() }}, opts...)
 	if err != nil {
 		return nil, err
 	}
